@@ -9,6 +9,7 @@ import (
 	"encoding/json"
 	"fmt"
 	"os"
+	"strings"
 	"sync"
 	"time"
 
@@ -125,6 +126,8 @@ type Chain struct {
 	Proposer int
 	// VoteFlags lets a test mark validators as absent in DecidedLastCommit (index by validator).
 	Absent map[int]bool
+	// Misbehavior (evidence of double signing) delivered with the next block, then cleared.
+	Misbehavior []abci.Misbehavior
 	// replica mode (see replicas.go)
 	twins   []*band.BandApp
 	tainted bool
@@ -474,12 +477,16 @@ func (c *Chain) Block(txs [][]byte, dt time.Duration) (res *BlockResult, err err
 	hash := hsum[:]
 	req := &abci.RequestFinalizeBlock{
 		Height: h, Time: t, Txs: txs, Hash: hash, ProposerAddress: proposer,
-		DecidedLastCommit: abci.CommitInfo{Votes: votes}, NextValidatorsHash: hash,
+		DecidedLastCommit: abci.CommitInfo{Votes: votes}, NextValidatorsHash: hash, Misbehavior: c.Misbehavior,
 	}
+	c.Misbehavior = nil
 	resp, err := finalizeRecover(c.App, req)
 	if err != nil {
 		if _, isPanic := err.(*PanicError); isPanic {
 			obs.fail("C02/panic", "height %d: node panic while executing the block: %v", h, err)
+		} else if len(req.Misbehavior) > 0 && strings.Contains(err.Error(), "unable to undelegate") {
+			// begin-block slashing of a redelegation is vetoed by the restake staking hook (lock above remaining power)
+			obs.fail("C02/slash-blocked-by-restake-lock", "height %d: a block carrying misbehaviour evidence cannot be finalized: %v", h, err)
 		} else {
 			obs.fail("C02/finalize-error", "height %d: FinalizeBlock returned an error (the node cannot produce the block): %v", h, err)
 		}
